@@ -1,6 +1,7 @@
 // The only translation unit that includes rapidcheck.  Runs one registered property over tapes
 // generated (and shrunk) by rapidcheck, or replays a saved tape without rapidcheck.
 #include "registry.h"
+#include "scrub.h"
 
 #include <rapidcheck.h>
 
@@ -228,6 +229,7 @@ int main(int argc, char** argv)
         }
         g_current_tape = tape;
         Tape t(tape);
+        scrub::scrub_stack();
         bool ok = fn(t, rep);
         if (!ok)
         {
@@ -263,6 +265,7 @@ int main(int argc, char** argv)
         g_current_tape = first;
         Tape t(first);
         rep.decoded.clear();
+        scrub::scrub_stack();
         bool r = fn(t, rep);
         ++ran;
         rep.cls("driver:full_size_first_case");
@@ -286,6 +289,7 @@ int main(int argc, char** argv)
         g_current_tape = tape;
         Tape t(tape);
         rep.decoded.clear();
+        scrub::scrub_stack();
         bool r = fn(t, rep);
         if (!rep.frozen) ++ran;
         if (!rep.frozen && !rep.decoded.empty()) rep.sample("generated_case", rep.decoded.substr(0, 600), 3);
